@@ -10,6 +10,7 @@ import traceback
 HERE = os.path.dirname(os.path.abspath(__file__))
 VERIF = os.path.dirname(HERE)
 EXIT_OK, EXIT_VIOLATION, EXIT_HARNESS = 0, 1, 2
+MAX_REPLAYED_VIOLATIONS = int(os.environ.get("VERIF_MAX_REPLAYS", "8"))
 
 
 def known_findings(pid):
@@ -256,6 +257,12 @@ def handle_xh(report, results, replayer, family=""):
             call = r.get("call")
             rec = report.add(nm, "crosshair", "refuted", r.get("message", "")[:400], r.get("cpu_s", 0),
                              r.get("confirmed_paths"), fam, witness=call, bound=meta.get("bound", ""))
+            if len(report.violations) >= MAX_REPLAYED_VIOLATIONS and not meta.get("known_finding"):
+                # enough violations have been reproduced on the real code to fail the run; further counterexamples are
+                # kept in the evidence (status refuted, witness) but not replayed (a real replay can take a minute)
+                rec["reproduced"] = None
+                rec["detail"] += " [not replayed: %d violations already reproduced]" % len(report.violations)
+                continue
             try:
                 args, kwargs = xh.parse_call(call, meta.get("eval_globals") or {})
             except Exception as e:  # noqa
